@@ -15,7 +15,8 @@ public:
     //freq - tune freq in range (-sample_rate/2 : sample_rate/2) (Hz)
     explicit Tuner(int sample_rate, real_t freq)
       : _fs{sample_rate}
-      , _freq{freq} {
+      , _freq{freq}
+      , _periodic{std::floor(freq) == freq} {
         DSPLIB_ASSERT(std::abs(_freq) <= (_fs / 2), "tuner freq must be in range (-fs/2 : fs/2)");
     }
 
@@ -23,11 +24,16 @@ public:
         const int n = x.size();
         arr_cmplx r(n);
         for (int i = 0; i < n; i++) {
-            const real_t phase = 2 * pi * _freq * _phase / _fs;
+            //reduce the number of cycles before scaling by 2*pi (keeps the argument small for long streams)
+            const real_t cycles = _freq * real_t(_phase) / _fs;
+            const real_t phase = 2 * pi * (cycles - std::floor(cycles));
             const cmplx_t w = {std::cos(phase), std::sin(phase)};
             r[i] = x[i] * w;
             ++_phase;
-            _phase = (_phase < _fs) ? _phase : 0;
+            //exp(2i*pi*f*k/fs) has period fs only for an integer frequency
+            if (_periodic && (_phase >= _fs)) {
+                _phase = 0;
+            }
         }
         return r;
     }
@@ -47,7 +53,8 @@ public:
 private:
     int _fs;
     real_t _freq;
-    int _phase{0};
+    bool _periodic;
+    long long _phase{0};
 };
 
 }   // namespace dsplib
